@@ -25,45 +25,52 @@ META = {
 }
 
 
-def run(ctx):
+def agent_part(ctx, cfgs, sim_walks, sim_depth, sig_prefix="", big=False, corrupt=False):
+    """AgentDb.tla + agent.DB replay + Trace_Agent.tla; shared with C15 (whose statement covers the agent WAL too).
+    Returns the list of behaviours replayed."""
     import vlib
     import random
-    q = ctx.quick
     behs = []
-    for cfg in ("MC_quick.cfg", "MC_win.cfg", "MC_open.cfg", "MC_dup.cfg", "MC_churn.cfg"):
+    for cfg in cfgs:
         r = ctx.tlc("agent", "AgentDb", cfg, workers=4, timeout=1800)
         ctx.account(r)
         behs += r.emitted
-        ctx.log("%s: %d generated / %d distinct, %d behaviours" % (cfg, r.generated, r.distinct, len(r.emitted)))
-    if not q:
-        big = ctx.tlc("agent", "AgentDb", "MC_big.cfg", timeout=3000)
-        ctx.account(big)
-        ctx.log("MC_big: %d generated / %d distinct" % (big.generated, big.distinct))
-    d = 10 if q else 14
-    sim = ctx.tlc("agent", "AgentDb", "SIM.cfg", simulate=(10 if q else 300), depth=d + 3, workers=4,
-                  constants={"MaxOps": d}, timeout=(60 if q else 900))
-    ctx.account(sim)
+        ctx.log("agent %s: %d generated / %d distinct, %d behaviours" % (cfg, r.generated, r.distinct, len(r.emitted)))
+    if big:
+        bigr = ctx.tlc("agent", "AgentDb", "MC_big.cfg", timeout=3000)
+        ctx.account(bigr)
+        ctx.log("agent MC_big: %d generated / %d distinct" % (bigr.generated, bigr.distinct))
+    walks = []
+    if sim_walks:
+        sim = ctx.tlc("agent", "AgentDb", "SIM.cfg", simulate=sim_walks, depth=sim_depth + 3, workers=4,
+                      constants={"MaxOps": sim_depth}, timeout=(60 if sim_walks <= 20 else 900))
+        ctx.account(sim)
+        walks = sim.emitted
     rnd = random.Random(ctx.seed)
     best = {}
     for b in behs:
         key = (len(b["hist"]), rnd.random())
         if b["cl"] not in best or key < best[b["cl"]][0]:
             best[b["cl"]] = (key, b)
-    behs = [v[1] for v in sorted(best.values(), key=lambda v: v[0])] + sim.emitted
-    ctx.log("%d coverage classes + %d walks" % (len(best), len(sim.emitted)))
+    behs = [v[1] for v in sorted(best.values(), key=lambda v: v[0])] + walks
+    ctx.log("agent: %d coverage classes + %d walks" % (len(best), len(walks)))
     if not behs:
-        raise vlib.Infra("no behaviours emitted")
-    ctx.samples = [behs[0], behs[len(behs) // 2]]
-    if os.environ.get("VERIF_CORRUPT"):      # binding self-test: corrupt one predicted field -> must exit 1
+        raise vlib.Infra("no agent behaviours emitted")
+    if corrupt:      # binding self-test: corrupt one predicted field -> must exit 1
         for b in behs:
             aps = [s for s in b["hist"] if s["a"] == "Append" and s["res"] == "ok" and not s["fresh"]]
             if aps:
                 aps[0]["res"] = "ooo"
                 break
-    inp = ctx.write_ndjson("behaviours.ndjson", behs)
+    inp = ctx.write_ndjson("agent_behaviours.ndjson", behs)
     trace = ctx.tmp("c48_trace.ndjson")
-    gr = ctx.go_test("tsdb/agent", ["c48_agent_test.go"], "^TestVerifC48Agent$", env={"VERIF_IN": inp, "VERIF_TRACE": trace})
-    ctx.absorb(gr, label="C48 replay")
+    gr = ctx.go_test("tsdb/agent", ["c48_agent_test.go"], "^TestVerifC48Agent$", env={"VERIF_IN": inp, "VERIF_TRACE": trace},
+                     out_name="agent_result.ndjson")
+    if sig_prefix:
+        for rec in gr.records:
+            if rec.get("kind") == "violation":
+                rec["sig"] = sig_prefix + rec.get("sig", "")
+    ctx.absorb(gr, label="agent replay")
     if os.path.exists(trace) and os.path.getsize(trace) > 0:
         tv = ctx.tlc("agent", "Trace_Agent", "Trace.cfg", workers=1, files={"trace.ndjson": trace}, timeout=600)
         ctx.account(tv)
@@ -77,9 +84,17 @@ def run(ctx):
                     sig = pre + cl
                     if ":late" in cl:
                         sig = "late:" + sig
-                    ctx.add_violation(("behaviour %s: " + what + " (class %s)") % (rc["id"], json.dumps(rc["first"]), rc["T"], cl),
-                                      sig, {"behaviour": behs[int(rc["id"])], "entry": rc["first"]})
-        ctx.log("trace validation: %d real logs, %d findings reported" % (tv.generated - 1, n))
+                    ctx.add_violation(("agent behaviour %s: " + what + " (class %s)") % (rc["id"], json.dumps(rc["first"]), rc["T"], cl),
+                                      sig_prefix + sig, {"behaviour": behs[int(rc["id"])], "entry": rc["first"]})
+        ctx.log("agent trace validation: %d real logs, %d findings reported" % (tv.generated - 1, n))
+    return behs
+
+
+def run(ctx):
+    q = ctx.quick
+    behs = agent_part(ctx, ("MC_quick.cfg", "MC_win.cfg", "MC_open.cfg", "MC_dup.cfg", "MC_churn.cfg"),
+                      10 if q else 300, 10 if q else 14, big=not q, corrupt=bool(os.environ.get("VERIF_CORRUPT")))
+    ctx.samples = [behs[0], behs[len(behs) // 2]]
     ctx.assumptions += [
         "bounded model (see META.note); predicted WAL entries / refs are drift-only, verdicts come from append results and from "
         "AcceptedKept / RefClosed evaluated on the real entries",
